@@ -6,7 +6,9 @@ import LeptosModel.Model.Keyed
 case <name>
 init  <pre> <post> <bs> k k k…     build + mount a keyed list between <pre> and <post> sibling nodes
 initu <pre> <post> <bs> k k k…     build only (parent = None): the list is not in the DOM yet
-initf <pre> <post> <bs> k k k…     the same list as leptos `<ForEnumerate>` driven by a signal
+initf <pre> <post> <bs> k k k…     the same list as leptos `<ForEnumerate>` driven by a signal (`initp`: `<For>`);
+                                   every row body creates row-local state; `bump <k> <v>` writes row k's signal
+inith <0|1> <0|1> 1 k k k…         keyed() rendered to HTML, parsed, hydrated (then updated like `init`)
 inits <pre> <post> <bs> k k k…     `<ForEnumerate>` over a keyed store field (row k shows its label, k*10 at first)
 update k k k…                      rebuild with the new key sequence (`updset` / `updroot`: other store writes)
 trans[f] <pre> <post> <bs> k… / k… fresh `init[f]` followed by `update`; prints the update's line
@@ -45,6 +47,12 @@ structure DState where
   isFor : Bool := false
   /-- index every item was last told (`view_fn(index, _)`, then `set_index`) -/
   told : List (Key × Nat) := []
+  /-- hydrated from server HTML: the harness has no access to the list state (`e=-`) -/
+  hyd : Bool := false
+  /-- leptos `<For>` (rows get no index) -/
+  plain : Bool := false
+  /-- `<For>` / `<ForEnumerate>`: the row-local state of every row (owner table) -/
+  owners : Option Owners := none
   /-- keyed store field: the rows' labels -/
   labels : Option (List (Key × Nat)) := none
   /-- shape `n`: the inner list of every outer item (its `w.kids` / `w.next` are refreshed on use) -/
@@ -82,12 +90,13 @@ def mounted (s : KState) : Bool := s.w.kids.contains s.marker
 def render (st : DState) (s : KState) (log : Log) (failed : Nat := 0) : String :=
   let kids := " ".intercalate (s.w.kids.map (nodeName st s.marker))
   let items := s.w.storage.filterMap id
-  let els := if st.isFor then "-" else
+  let els := if st.isFor || st.hyd then "-" else
     joinOr "," ((items.flatMap (·.nodes)).filter (isElement st) |>.map (nodeName st s.marker))
-  let b := joinOr "," (log.builds.map fun (k, i) => s!"{k}@{i}")
+  let b := joinOr "," (log.builds.map fun (k, i) => if st.plain then s!"{k}@-" else s!"{k}@{i}")
   let u := joinOr "," (log.unmounts.map toString)
   let si :=
-    if st.isFor then "i=" ++ joinOr "," (items.map fun it =>
+    if st.plain then "i=-"
+    else if st.isFor then "i=" ++ joinOr "," (items.map fun it =>
       s!"{it.key}=" ++ (match toldOf st.told it.key with | some i => toString i | none => "?"))
     else "s=" ++ joinOr "," (log.setIndex.map fun (k, i) => s!"{k}>{i}")
   let l := match st.labels with
@@ -96,7 +105,14 @@ def render (st : DState) (s : KState) (log : Log) (failed : Nat := 0) : String :
           | some (_, v) => toString v | none => "?"))
     | none => ""
   let x := if failed == 0 then "" else s!" ; x={failed}"
-  s!"{kids} ; e={els} ; b={b} ; u={u} ; {si}{l}{x}"
+  -- row-local state: signal . stored value . memo . rendered text
+  let r := match st.owners with
+    | some o => " ; r=" ++ joinOr "," (items.map fun (it : Item) =>
+        match o.get it with
+        | some v => s!"{it.key}={v}.{it.key * 100 + 1}.{v + 1}.{v + 1}"
+        | none => s!"{it.key}=X.X.X.?")
+    | none => ""
+  s!"{kids} ; e={els} ; b={b} ; u={u} ; {si}{r}{l}{x}"
 
 def sortNat (l : List Nat) : List Nat := l.mergeSort (· ≤ ·)
 
@@ -151,7 +167,7 @@ def finish (st : DState) (s : KState) (v : Option String) (failed : Nat := 0) : 
   let isM := mounted s
   let st := { st with ks := some s, tainted := !domOrderOk st s isM, told := tell st.told s.w.log }
   -- `<ForEnumerate>`: every mounted item's index signal holds its position
-  let v := if v.isNone && st.isFor &&
+  let v := if v.isNone && st.isFor && !st.plain &&
       (List.range s.hashed.length).any (fun j => (s.hashed[j]?.bind (toldOf st.told)) != some j)
     then some "set-index" else v
   (st, render st s s.w.log failed ++ " ## " ++ verdictStr v)
@@ -195,8 +211,9 @@ def doInit (mode : String) (pre post : Nat) (shape : String) (keys : List Key) :
   match shapeKinds shape with
   | none => none
   | some kinds =>
-    let isFor := mode == "initf" || mode == "inits"
+    let isFor := mode == "initf" || mode == "inits" || mode == "initp"
     if isFor && !(shape == "1" || shape == "2" || shape == "3") then none else
+    if mode == "inith" && (shape != "1" || pre > 1 || post > 1) then none else
     let preIds := List.range pre
     let s0 := build kinds.length keys preIds pre
     let s := if mode == "initu" then s0 else s0.mount none
@@ -205,7 +222,8 @@ def doInit (mode : String) (pre post : Nat) (shape : String) (keys : List Key) :
     let st : DState :=
       { pre := preIds.map fun i => (i, s!"P{i}"),
         post := (List.range post).map fun i => (s.w.next - post + i, s!"Q{i}"),
-        kinds := kinds, isFor := isFor, nested := shape == "n",
+        kinds := kinds, isFor := isFor, nested := shape == "n", plain := mode == "initp", hyd := mode == "inith",
+        owners := if mode == "initf" || mode == "initp" then some (ownersAfter (· * 100) [] s) else none,
         labels := if mode == "inits" then some (keys.map fun k => (k, k * 10)) else none }
     let st := register st s
     let v :=
@@ -218,6 +236,7 @@ def doUpdate (st : DState) (s0 : KState) (to : List Key) : DState × String :=
   let s1 := rebuild s0 to
   let st := register st s1
   let st := { st with
+    owners := st.owners.map fun o => ownersAfter (· * 100) o s1,
     labels := st.labels.map fun ls => to.map fun k =>
       (k, match ls.find? (·.1 == k) with | some (_, v) => v | none => k * 10),
     inners := st.inners.filter fun p => to.contains p.1 }
@@ -272,7 +291,7 @@ def step (st : DState) (line : String) : DState × String :=
   match words line with
   | ["case", n] => ({}, s!"case {n}")
   | ["sib"] =>
-    match (if st.isFor then none else st.ks) with
+    match (if st.isFor || st.hyd then none else st.ks) with
     | some s0 =>
       let child := s0.w.next
       let s0 := { s0 with w := { s0.w with next := s0.w.next + 1, log := {} } }
@@ -284,12 +303,12 @@ def step (st : DState) (line : String) : DState × String :=
         if !domOrderOk st s1 (mounted s1) then some (if st.tainted then "dom-order-move-elided" else "dom-order") else none)
     | none => (st, "bad-op")
   | ["unmount"] =>
-    match (if st.isFor then none else st.ks) with
+    match (if st.isFor || st.hyd then none else st.ks) with
     | some s0 => doMount st s0 true none
     | none => (st, "bad-op")
   | [cmd, j] =>
     if cmd == "remount" || cmd == "mount" then
-      match (if st.isFor then none else st.ks) with
+      match (if st.isFor || st.hyd then none else st.ks) with
       | some s0 =>
         match (if j == "e" then some st.post.length else j.toNat?) with
         | some jn => if jn > st.post.length then (st, "bad-op") else doMount st s0 (cmd == "remount") (some jn)
@@ -304,6 +323,16 @@ def step (st : DState) (line : String) : DState × String :=
         if cmd != "update" && st.labels.isNone then (st, "bad-op") else doUpdate st s0 [k]
       | _, _, _ => (st, "bad-op")
     else (st, "bad-op")
+  | ["bump", k, v] =>
+    match st.ks, st.owners, k.toNat?, v.toNat? with
+    | some s0, some o, some k, some v =>
+      match (s0.w.storage.filterMap id).find? (·.key == k) with
+      | some it =>
+        let s1 := { s0 with w := { s0.w with log := {} } }
+        let st := { st with owners := some (o.set it v) }
+        finish st s1 (if !domOrderOk st s1 (mounted s1) then some "dom-order" else none)
+      | none => (st, "bad-op")
+    | _, _, _, _ => (st, "bad-op")
   | ["label", k, v] =>
     match st.ks, st.labels, k.toNat?, v.toNat? with
     | some s0, some ls, some k, some v =>
@@ -322,7 +351,7 @@ def step (st : DState) (line : String) : DState × String :=
       match st.ks, parseNats rest with
       | some s0, some (o :: ks) => if !st.nested || !nodupKeys ks then (st, "bad-op") else doInner st s0 o ks
       | _, _ => (st, "bad-op")
-    else if cmd == "init" || cmd == "initf" || cmd == "initu" || cmd == "inits" then
+    else if cmd == "init" || cmd == "initf" || cmd == "initu" || cmd == "inits" || cmd == "initp" || cmd == "inith" then
       match rest with
       | p :: q :: b :: ks =>
         match p.toNat?, q.toNat?, parseNats ks with
